@@ -67,5 +67,11 @@ Definition render_decimal_prepare_head : fdef :=
      f_body := [(SAssign (TSelf "maxwidth") (XBin OAdd (XBin OAdd (XAttr (XName "self") "nintegral") (XAttr (XName "self") "nfractional")) (XIfExp (XCompare (XAttr (XName "self") "nfractional") [(CGt, (XConst (PInt 0)))]) (XConst (PInt 1)) (XConst (PInt 0)))))];
      f_gen := false |}.
 
+(* beanquery.query_render.render_rows *)
+Definition render_rows_fn : fdef :=
+  {| f_params := ["rows"; "renderers"; "ctx"];
+     f_body := [(SAssign (TName "null") (XAttr (XName "ctx") "null")); (SAssign (TName "spacerow") (XBin OMul (XList [(XConst (PV (VStr [])))]) (XLen (XName "renderers")))); (SFor "row" (XName "rows") [(SAssign (TName "cells") (XListComp (XIfExp (XCompare (XIndex (XName "$item") (XConst (PInt 1))) [(CIsNot, (XConst PNone))]) (XCallMethod (XIndex (XName "$item") (XConst (PInt 0))) "format" [(XIndex (XName "$item") (XConst (PInt 1)))]) (XName "null")) "$item" (XPrim "builtins.zip" [(XName "renderers"); (XName "row")]) None)); (SIf (XNot (XPrim "truth" [(XPrim "builtins.any" [(XListComp (XPrim "isinstance:list" [(XName "cell")]) "cell" (XName "cells") None)])])) [(SYield (XName "cells"))] [(SAssign (TName "cells") (XListComp (XIfExp (XPrim "truth" [(XPrim "isinstance:list" [(XName "cell")])]) (XName "cell") (XList [(XName "cell")])) "cell" (XName "cells") None)); (SAssign (TName "nlines") (XPrim "builtins.max" [(XConst (PInt 1)); (XPrim "builtins.max" [(XListComp (XLen (XName "cell")) "cell" (XName "cells") None)])])); (SAssign (TName "$new") (XList [])); (SFor "cell" (XName "cells") [(SIf (XCompare (XLen (XName "cell")) [(CLt, (XName "nlines"))]) [(SExpr (XMethod (TName "cell") "extend" [(XBin OMul (XList [(XConst (PV (VStr [])))]) (XBin OSub (XName "nlines") (XLen (XName "cell"))))]))] []); (SExpr (XMethod (TName "$new") "append" [(XName "cell")]))]); (SAssign (TName "cells") (XName "$new")); (SFor "$y" (XPrim "zip*" [(XName "cells")]) [(SYield (XName "$y"))])]); (SIf (XPrim "truth" [(XAttr (XName "ctx") "spaced")]) [(SYield (XName "spacerow"))] [])])];
+     f_gen := true |}.
+
 Definition refs : list (nat * string) :=
   [].
